@@ -997,7 +997,8 @@ if __name__ == "__main__":
                            "Pamiq.Persist.load_into_smaller", "Pamiq.Persist.clock_continues",
                            "Pamiq.Persist.clock_no_jump", "Pamiq.Persist.relaunch",
                            "Pamiq.Persist.reload_data", "Pamiq.Persist.reload_models",
-                           "Pamiq.Persist.reload_trainers", "Pamiq.Persist.User.update_wf"],
+                           "Pamiq.Persist.reload_trainers", "Pamiq.Persist.update_keeps_invariants",
+                           "Pamiq.Persist.trainable_preserved"],
         suites=[suite_small, suite_random, suite_malformed, suite_bytes, suite_launch],
         search=search, replay=replay,
         assumptions=["byte formats are trusted: pickle and str(float)/float(str) round trips are "
